@@ -16,10 +16,10 @@ import (
 type lockKey = *types.Var
 
 type lockCfg struct {
-	cnt map[lockKey]int           // acquisitions minus releases relative to function entry
-	def map[lockKey]int           // deferred unlocks pending
-	asm map[*ssa.Call]bool        // assumption: this call returned err == nil
-	acq map[lockKey]token.Pos     // where the lock was (last) acquired, for messages
+	cnt map[lockKey]int       // acquisitions minus releases relative to function entry
+	def map[lockKey]int       // deferred unlocks pending
+	asm map[*ssa.Call]bool    // assumption: this call returned err == nil
+	acq map[lockKey]token.Pos // where the lock was (last) acquired, for messages
 }
 
 func newCfg() *lockCfg {
